@@ -21,13 +21,54 @@ def discover_modules():
     return sorted(names)
 
 
-def run_child(mod):
+def run_child(mod, pythonpath=None):
     env = dict(os.environ)
+    if pythonpath:
+        env["PYTHONPATH"] = pythonpath
     p = subprocess.run([sys.executable, CHILD, mod], stdout=subprocess.PIPE, stderr=subprocess.PIPE, env=env, timeout=300)
     try:
         return json.loads(p.stdout.decode().strip().split("\n")[-1])
     except Exception:  # noqa: BLE001
         return {"module": mod, "error": "child crashed: " + p.stderr.decode()[-200:]}
+
+
+def sourceless_probe(out, names):
+    """the same question for the package installed WITHOUT its .py files (byte-compiled in place, sources removed — what
+    `compileall -b` deployments and frozen bundles ship): the modules are importable exactly as before, so each registry,
+    once loaded, must still hold one transcoder per model class.  Judged by the same child and the same oracles."""
+    import compileall
+    import shutil
+    import tempfile
+
+    import richchk
+
+    entries = [n for n in names if n.endswith(("_transcoder_factory", ".richchk_io", ".chk_io", ".starcraft_mpq_io"))][:8] + ["richchk"]
+    tmp = tempfile.mkdtemp(prefix="c18_sourceless_")
+    try:
+        dst = os.path.join(tmp, "richchk")
+        shutil.copytree(richchk.__path__[0], dst, ignore=shutil.ignore_patterns("__pycache__"))
+        compileall.compile_dir(dst, quiet=2, legacy=True, workers=1)
+        for root, _, files in os.walk(dst):
+            for f in files:
+                if f.endswith(".py"):
+                    os.remove(os.path.join(root, f))
+        with ThreadPoolExecutor(max_workers=8) as ex:
+            results = list(ex.map(lambda m: run_child(m, tmp), entries))
+    finally:
+        shutil.rmtree(tmp, ignore_errors=True)
+    for r in results:
+        mod = r["module"]
+        out.case("import1-sourceless", mod.encode(), sample={"module": mod, "registries": [(x["loaded"], len(x["keys"])) for x in r.get("registries", [])]})
+        if "error" in r:
+            out.violations.append({"oracle": "importing any single module of the package first succeeds (package installed without .py sources)", "module": mod, "error": r["error"], "configuration": "compileall -b, sources removed"})
+            continue
+        for ri, reg in enumerate(r["registries"]):
+            if reg["loaded"]:
+                want = r["model_ids"][ri]
+                if sorted(map(str, reg["keys"])) != sorted(map(str, want)):
+                    out.violations.append({"oracle": "a loaded registry holds exactly the ids of the model classes (package installed without .py sources)", "module": mod, "registry": ri, "keys": reg["keys"], "model_ids": want, "configuration": "compileall -b, sources removed"})
+                if reg["registrable_classes"] != len(reg["keys"]):
+                    out.violations.append({"oracle": "one transcoder per key (package installed without .py sources)", "module": mod, "registry": ri, "classes": reg["registrable_classes"], "keys": len(reg["keys"]), "configuration": "compileall -b, sources removed"})
 
 
 def run(prop, tier, seed):
@@ -62,6 +103,7 @@ def run(prop, tier, seed):
         if mod in idx:
             lines.append("import1 %d" % idx[mod])
             reals.append((mod, real))
+    sourceless_probe(out, names)
     try:
         model = run_driver(lines)
         for ln, m, (mod, r) in zip(lines, model, reals):
